@@ -22,9 +22,11 @@ EventOk(e) == /\ e.enc_len = LenOf(e)
               /\ e.wrote = Fits(e.enc_len)
               /\ e.read = e.wrote
 TInit == l = 1 /\ kind = "req" /\ m = [tag |-> 7] /\ bytes = W!EncodeReq([tag |-> 7]) /\ done = FALSE
+\* end to end (the real server process over TCP): an answer equals what the in-process database renders for the same statement;
+\* a byte string the specification rejects ends the connection or is answered, it never hangs it
+SrvOk(e) == IF e.ev = "srv" THEN e.same = TRUE ELSE e.ended = TRUE
 TNext == /\ l <= Len(Rec)
-         /\ Rec[l].ev = "msg"
-         /\ EventOk(Rec[l])
+         /\ IF Rec[l].ev = "msg" THEN EventOk(Rec[l]) ELSE Rec[l].ev \in {"srv", "garbage"} /\ SrvOk(Rec[l])
          /\ l' = l + 1
          /\ UNCHANGED <<kind, m, bytes, done>>
 TSpec == TInit /\ [][TNext]_tvars
